@@ -97,6 +97,12 @@ Proof.
   repeat (destruct Hin as [<-|Hin]; [reflexivity|]). destruct Hin.
 Qed.
 
+Theorem trace_loops_are_canonical : forall t, In t trace_loops -> tgeometry t = tgeometry (tcanon (tl_region t)).
+Proof.
+  intros t Hin. unfold trace_loops in Hin.
+  repeat (destruct Hin as [<-|Hin]; [reflexivity|]). destruct Hin.
+Qed.
+
 Theorem trace_start_is_the_corner_slot : forall l1 l2 window0, 1 <= l1 -> 1 <= l2 -> 0 <= window0 -> init_ok l1 l2 window0.
 Proof.
   intros l1 l2 window0 H1 H2 Hw.
